@@ -264,18 +264,54 @@ def key_construction_sites(ctx):
     return sites
 
 
-def observed_clear_then_set(p):
-    """the path sets a bool cell to true after having observed it false: `replace(true)` whose old value is false, or a
-    `get()` that read false followed by `set(true)` on the same cell"""
-    def is_false(v):
-        return v == ("const", False) or (v and v[0] == "op" and p.facts.get(v[1]) is False)
+def norm_cell_val(p, v):
+    """a cell value as a comparable token: literals, field-less enum variants, and opaque values whose variant / truth the
+    path has established"""
+    if v is None:
+        return None
+    if v[0] == "const":
+        return ("c", v[1])
+    if v[0] == "agg" and v[1] == "adt" and not v[4]:
+        return ("v", v[3])
+    if v[0] == "op":
+        k = p.facts.get(v[1])
+        if isinstance(k, bool):
+            return ("c", k)
+        if isinstance(k, tuple) and k and k[0] == "variant" and isinstance(k[1], int):
+            return ("v", k[1])
+    return None
+
+
+def key_flag_clear_value(ctx):
+    """the value `Drop for ThreadKey` writes into the thread-local key cell: by definition the `free` state"""
+    a = ctx.F.adts.get(KEY)
+    if not a or not a.get("drop_fn"):
+        return ("c", False)
+    paths, err, I = ctx.paths(ctx.F.fn(a["drop_fn"]))
+    vals = set()
+    for p in paths or []:
+        for e in p.ev("CELL_SET"):
+            vals.add(norm_cell_val(p, e["val"]))
+    vals.discard(None)
+    return next(iter(vals)) if len(vals) == 1 else ("c", False)
+
+
+def observed_clear_then_set(p, clear=("c", False)):
+    """the path moves a cell out of its `free` state after having observed it free: `replace(taken)` whose old value is
+    free, or a `get()` that read free followed by `set(taken)` on the same cell"""
+    def is_free(v):
+        return norm_cell_val(p, v) == clear
+
+    def is_taken(v):
+        n = norm_cell_val(p, v)
+        return n is not None and n != clear
     last_get = {}
     for e in p.events:
         if e["k"] == "CELL_GET":
             last_get[e["recv"]] = e["val"]
-        elif e["k"] == "CELL_REPLACE" and e["new"] == ("const", True) and is_false(e["old"]):
+        elif e["k"] == "CELL_REPLACE" and is_taken(e["new"]) and is_free(e["old"]):
             return True
-        elif e["k"] == "CELL_SET" and e["val"] == ("const", True) and e["recv"] in last_get and is_false(last_get[e["recv"]]):
+        elif e["k"] == "CELL_SET" and is_taken(e["val"]) and e["recv"] in last_get and is_free(last_get[e["recv"]]):
             return True
     return False
 
@@ -325,7 +361,7 @@ def rule_K1(ctx, R):
             drops = [e for e in p.ev("KEYDROP") if e.get("val") == "<constructed>"]
             if built:
                 nsome += 1
-                ok = observed_clear_then_set(p)
+                ok = observed_clear_then_set(p, key_flag_clear_value(ctx))
                 if not ok:
                     bad = "a key is returned on a path where the flag test-and-set did not observe `clear`"
             else:
